@@ -51,6 +51,41 @@ def run(ctx):
                 ctx.property_failure({"doc": d, "spelling": t, "canonical_of_spelling": c1, "expected_canonical": canon,
                                       "rejected": err},
                                      "a lenient spelling does not canonicalise to the canonical text of its content")
+    # ---- the same convergence through the writing tool: octave_write(lenient=true) must put exactly the canonical
+    #      text of the content into the file, whatever the spelling (all-freedoms corner + random spellings) ----
+    import asyncio, os, shutil, tempfile
+    from octave_mcp.mcp.write import WriteTool
+    tmp = tempfile.mkdtemp(prefix="c03w")
+    loop = asyncio.new_event_loop()
+    try:
+        wdocs = [(d, cl) for d, cl in cases if not cl][: ctx.scale(150, 2500)]
+        for i, (d, _) in enumerate(wdocs):
+            canon = doccases.impl_emit(docprops.expected(d))
+            if "\r" in canon:
+                continue                      # raw CR does not survive a text file (C01/C05 finding cr-through-file)
+            for k in range(ctx.scale(3, 6)):
+                rng = random.Random(ctx.rng.random())
+                if k == 0:
+                    rng.random = lambda: 0.0
+                t = render.render(d, rng)[0]
+                pth = os.path.join(tmp, f"w{i}_{k}.oct.md")
+                w = loop.run_until_complete(WriteTool().execute(target_path=pth, content=t, lenient=True))
+                ctx.count()
+                if w.get("status") != "success":
+                    got = None
+                else:
+                    with open(pth, newline="") as fh:
+                        got = fh.read()
+                if got != canon:
+                    c1, _, err = doccases.canon_impl(t)
+                    if c1 != canon:
+                        continue              # already reported above through emit(parse(x))
+                    ctx.property_failure({"doc": d, "spelling": t, "file_bytes": got, "expected_canonical": canon,
+                                          "errors": str(w.get("errors"))[:300], "surface": "octave_write(lenient=true)"},
+                                         "octave_write(lenient=true): a lenient spelling is not written as the canonical text of its content")
+    finally:
+        loop.close()
+        shutil.rmtree(tmp, ignore_errors=True)
     ctx.sample({"canonical": canon_outputs[0][0]})
     # ---- strict profile of every canonical output ----
     if hm:
